@@ -5,3 +5,4 @@ import LettreVerif.Props.C16
 import LettreVerif.Props.C04
 import LettreVerif.Props.C05
 import LettreVerif.Props.C14
+import LettreVerif.Props.C06
